@@ -207,6 +207,67 @@ def concretize(cz, v, name=None, typ=None):
     return {'$relmap': v.kname, 'items': items, 'universe': [str(k) for k in u]}
 
 
+def finite_universe(c, formulas):
+    """
+    Counter-model search only (option  refute_universe = {'Elem': n}): every quantifier over the key sort is expanded
+    over n constants u_0..u_{n-1} and every ground term of the key sort is required to equal one of them.  A model of
+    the resulting ground formulas, restricted to {u_i}, is a model of the quantified ones (a counterexample over a
+    small universe is a counterexample); proofs never see this.
+    """
+    opts = c.opts.get('refute_universe') or {}
+    if not opts:
+        return formulas
+    consts = {}
+    for kname, n in opts.items():
+        srt = key_sort(kname)
+        consts[srt.name()] = [z3.Const(f'u!{kname}!{i}', srt) for i in range(n)]
+    import itertools
+
+    def expand(f):
+        if z3.is_quantifier(f):
+            nv = f.num_vars()
+            doms = []
+            for i in range(nv):
+                sn = f.var_sort(i).name()
+                if sn not in consts:
+                    return f                     # a quantifier over another sort stays
+                doms.append(consts[sn])
+            body = expand(f.body())
+            insts = []
+            for combo in itertools.product(*doms):
+                # de Bruijn: variable 0 is the LAST bound variable
+                insts.append(z3.substitute_vars(body, *reversed(combo)))
+            return z3.And(*insts) if f.is_forall() else z3.Or(*insts)
+        if z3.is_app(f) and f.num_args() > 0:
+            kids = [expand(a) for a in f.children()]
+            return f.decl()(*kids)
+        return f
+
+    out = [expand(as_b(f)) for f in formulas]
+    seen = {}
+
+    def collect(t):
+        if t.get_id() in seen:
+            return
+        seen[t.get_id()] = t
+        if z3.is_app(t):
+            for a in t.children():
+                collect(a)
+    for f in out:
+        collect(f)
+    closure = []
+    for t in list(seen.values()):
+        if z3.is_app(t) and not z3.is_quantifier(t) and t.sort().name() in consts:
+            us = consts[t.sort().name()]
+            if not any(t.eq(u) for u in us):
+                closure.append(z3.Or(*[t == u for u in us]))
+    return out + closure
+
+
+def as_b(f):
+    return z3.BoolVal(f) if isinstance(f, bool) else f
+
+
 # ------------------------------------------------------------------ while rule with heap writes
 
 def _loop_index(info, st):
